@@ -1,8 +1,8 @@
 #!/bin/bash
-# confirm_seed.sh <prop> <X> : independently confirm a seeded change delivered in /tmp/mut/<prop>/out/<X> in the scratch worktree /tmp/mut/<prop>:
+# confirm_seed.sh <prop> <X> [basedir=/tmp/mut] [name=<prop>-<X>] : independently confirm a seeded change delivered in /tmp/mut/<prop>/out/<X> in the scratch worktree /tmp/mut/<prop>:
 # (1) clean tree: build, tests pass, demo passes; (2) with patch: build, tests pass, demo fails. On success copy to /verif/seeded/<prop>-<X>/
 set -u
-P=$1; X=$2; W=/tmp/mut/$P; O=$W/out/$X; L=/tmp/mut/confirm-$P-$X.log
+P=$1; X=$2; B=${3:-/tmp/mut}; N=${4:-$P-$X}; W=$B/$P; O=$W/out/$X; L=$B/confirm-$P-$X.log
 cd $W || exit 2
 git checkout -- src include 2>/dev/null
 build() { cmake -G Ninja -S . -B _build >/dev/null 2>&1 && cmake --build _build >/dev/null 2>&1; }
@@ -21,7 +21,7 @@ git checkout -- src include
 echo "patched tests rc=$t demo rc=$m"
 [ $t -eq 0 ] || { echo "TESTS FAIL WITH PATCH"; exit 1; }
 [ $m -ne 0 ] || { echo "DEMO PASSES WITH PATCH"; exit 1; }
-D=/verif/seeded/$P-$X; mkdir -p $D
+D=/verif/seeded/$N; mkdir -p $D
 cp $O/patch.diff $O/demo.cpp $O/run_demo.sh $D/
 python3 - $O/meta.json $D/meta.json $P <<PY
 import json,sys
@@ -31,5 +31,5 @@ out={'property':sys.argv[3],'summary':m.get('summary'),'needs':m.get('needs'),'f
  'detected_by':None}
 json.dump(out,open(sys.argv[2],'w'),indent=1)
 PY
-echo CONFIRMED $P-$X
+echo CONFIRMED $N
 } 2>&1 | tee $L
